@@ -13,7 +13,7 @@ CLAIMS = {
     'C01': dict(text='Static analysis: units/levels abstract interpretation of all intersects_bounds forms down to the numba kernels (axis, level, base, parity, '
                      'fencepost, in-loop confinement), CFG dominance of box re-orientation, exhaustive weak-ordering evaluation of the comparison-only fragments '
                      '(closed box membership, interval overlap, bbox reject soundness, projection shortcut), form agreement scalar/array/inds, inert rows => False, '
-                     'containment fallback on every non-accepting exit.',
+                     'containment fallback on every non-accepting exit. Orientation sign table and box-edge coverage (finite tables), IEEE (no-fastmath) compilation of the kernels.',
                 undecided='correctness of the orientation/winding arithmetic, the geometric lemma behind the projection shortcut, exact-arithmetic behaviour.',
                 technique='abstract interpretation (units/levels type system) + CFG dominance + exhaustive order-type evaluation', ref='§5 C01'),
     'C02': dict(text='Static analysis: units typing of the point-vs-shape kernels and wrappers, scalar/array/inds agreement, exhaustive evaluation of the half-open edge rule and '
@@ -22,33 +22,33 @@ CLAIMS = {
                 technique='abstract interpretation + exhaustive order-type evaluation + taint (validity mask)', ref='§5 C02'),
     'C03': dict(text='Static analysis of HilbertRtree: exhaustive weak-ordering (and NaN) evaluation of node pruning (soundness) and leaf classification (equivalence) for '
                      'n=1..3 dimensions, NaN-safe reductions in the builder, page/parent rows = (min of lower bounds, max of upper bounds), builder/reader agreement of the '
-                     'leaf<->key-slice arithmetic, cursor discipline of the result buffers, pairing of key slices with the masks computed from the same start:stop.',
+                     'leaf<->key-slice arithmetic, cursor discipline of the result buffers, pairing of key slices with the masks computed from the same start:stop. GeometryArray.sindex is built on all rows\' bounds in array order; no fastmath (discharges the NaN-comparison assumption).',
                 undecided='disjointness of traversal ranges as an inductive invariant, independence from p as a whole, exactly-once as a whole.',
                 technique='exhaustive order-type evaluation of comparison-only fragments + CFG pairing + affine comparison', ref='§5 C03'),
     'C04': dict(text='Static analysis of the cx indexers: axes/defaults/swap/layout of _get_bounds (order-type evaluation), covered U tested rows with mask pairing and order '
-                     'restoration, active geometry + parent handed to the indexer, positional selection, who may write _sindex.',
+                     'restoration, active geometry + parent handed to the indexer, positional selection, who may write _sindex. Necessary obligations of C03 (the index answers exactly) are re-reported here.',
                 undecided='the exact test itself (C01), pandas indexing semantics.',
                 technique='order-type evaluation + def-use pairing + who-may-write', ref='§5 C04'),
     'C05': dict(text='Static analysis of sjoin: emitted pairs flow only through the exact-predicate mask of the same candidates, same-row rule, outcome-level join-kind '
-                     'flags per merge chain (unmatched left/right rows kept?), suffix order, geometry drop, index restoration, Dask form zips partitions with their own bounds.',
+                     'flags per merge chain (unmatched left/right rows kept?), suffix order, geometry drop, index restoration, Dask form zips partitions with their own bounds. Necessary obligations of C02 (predicate) and C03 (candidates) are re-reported here.',
                 undecided='pandas merge semantics (multiplicity, NaN fill, column order), index dtypes.',
                 technique='def-use provenance + merge-chain abstraction (table rule)', ref='§5 C05'),
     'C06': dict(text='Static analysis of the Dask layer: op table (Dask method = map_partitions of the same-named pandas method with the same arguments), NaN-ignoring role-typed '
                      'total_bounds, cx partition selection (covered U overlapping, overlapping re-filtered with the same box), set_geometry mapped over partitions, geometry= reaching '
-                     'the per-partition reader, who may write the partition caches.',
+                     'the per-partition reader, who may write the partition caches. Bounds tables of every geometry column filtered with the partitions (from C12), duck-typed selection-key guards.',
                 undecided='Dask graph semantics, equality of computed values.',
                 technique='table/sibling agreement + def-use provenance + who-may-write', ref='§5 C06'),
     'C08': dict(text='Static analysis of hilbert_distance: no store into the total_bounds argument (effects), no cross-row operation between bounds and result, '
-                     'same-dimension centre/range, zero-extent widening on both axes, both clips dominate the return of _data2coord, delegation passes total_bounds and p.',
+                     'same-dimension centre/range, zero-extent widening on both axes, both clips dominate the return of _data2coord, delegation passes total_bounds and p. 64-bit width of the distances on the whole path to the caller.',
                 undecided='the curve itself (C07), floating-point scaling exactness.',
                 technique='effect analysis + def-use non-interference + CFG dominance', ref='§5 C08'),
     'C09': dict(text='Static analysis of pack_partitions: distance column from the active geometry with frame-level total_bounds evaluated once outside the per-partition '
-                     'function and passed explicitly with the caller\'s p; assigned column = set_index column; npartitions/shuffle reach set_index; partition-count guard on every path.',
+                     'function and passed explicitly with the caller\'s p; assigned column = set_index column; npartitions/shuffle reach set_index; partition-count guard on every path. Necessary obligations of C08 and of the Dask total_bounds reduction are re-reported here.',
                 undecided='row conservation and ordering under Dask\'s shuffle, independence from input partitioning.',
                 technique='def-use provenance + CFG must-pass-through', ref='§5 C09'),
     'C10': dict(text='Static analysis of pack_partitions_to_parquet and its closures: create/cleanup pairing of the placeholder and temp directory families on every normal path, '
                      'ordering (overwrite before makedirs, remove placeholder before write, read before delete, metadata on every path, fresh re-read returned), naming templates of '
-                     'sub-parts/placeholders/final files and the compaction move, validation of tempdir_format before use.',
+                     'sub-parts/placeholders/final files and the compaction move, validation of tempdir_format before use. Reader-side part ordering (C11.d/C12.c) re-reported: the returned frame is a re-read.',
                 undecided='file contents, Dask quantiles/digitize, real filesystem effects.',
                 technique='CFG must-pass-through/ordering + path-template comparison', ref='§5 C10'),
     'C11': dict(text='Static analysis of the type registry and parquet hooks: closure of Dtype<->Array<->scalar<->Dask example<->nesting level for all seven kinds, arrow hooks, '
@@ -57,23 +57,23 @@ CLAIMS = {
                 technique='registry closure (table rule) + def-use', ref='§5 C11'),
     'C12': dict(text='Static analysis of partition-bounds metadata: writer/reader key agreement, per-partition values from that partition\'s total_bounds in partition order, '
                      'string->int conversion before the ordering sort, natural sort of pieces, closed-overlap filter with re-oriented box (exhaustive order-type evaluation), one mask '
-                     'for partitions/divisions/all bounds tables, bounds of the active geometry used for filtering.',
+                     'for partitions/divisions/all bounds tables, bounds of the active geometry used for filtering. No memoisation of storage reads; the geometry name is read after set_geometry (CFG order); selection-key guard of cache propagation.',
                 undecided='that the recorded numbers equal the data extents (C13, pyarrow).',
                 technique='key/table agreement + CFG ordering + order-type evaluation + def-use pairing', ref='§5 C12'),
     'C13': dict(text='Static analysis of bounds kernels and accessors: parity->axis, min/max roles, isfinite guards, sentinel->NaN, result layout, values/offsets pairing (absolute vs '
-                     'windowed), validity-mask sanitisation of fixed-width values, delegations return the same layout.',
+                     'windowed), validity-mask sanitisation of fixed-width values, delegations return the same layout. NaN-initialised result buffers are floating point for every coordinate subtype; no fastmath.',
                 undecided='numerical equality.',
                 technique='abstract interpretation (units/roles) + CFG must-guard + taint', ref='§5 C13'),
     'C14': dict(text='Static analysis of measures: dimension of length (sqrt(dX^2+dY^2)) and area (X*dY, halved), isfinite guards, confinement to the ring, map depth = nesting level with '
-                     'offsets composed per level, missing guard and NaN prefill, per-kind table, scalar=array kernel with the element\'s innermost offsets, boundary re-wrap with mask.',
+                     'offsets composed per level, missing guard and NaN prefill, per-kind table, scalar=array kernel with the element\'s innermost offsets, boundary re-wrap with mask. Decision table (store guard x prefill) for missing / part-less / present elements; repository-defined decorator wrappers analysed as part of the method; no fastmath.',
                 undecided='that the shoelace/wrap-around formula is right, degenerate-ring threshold, floating-point accuracy.',
                 technique='abstract interpretation (units/dimensions/levels) + table rule', ref='§5 C14'),
     'C15': dict(text='Static analysis of oriented(): the mutating kernel receives a fresh copy (effects), the result is rebuilt from the same offsets per level with the validity mask '
-                     'outermost, kernel level typing (polygon offsets index rings, ring offsets index coordinates), shell = first ring, both strides reversed over the same range.',
+                     'outermost, kernel level typing (polygon offsets index rings, ring offsets index coordinates), shell = first ring, both strides reversed over the same range. Shell-marker store stays inside the per-ring array (start offsets of trailing part-less polygons excluded).',
                 undecided='the sign convention, idempotence, effect on areas and intersections.',
                 technique='effect analysis + abstract interpretation (levels) + def-use', ref='§5 C15'),
     'C16': dict(text='Static analysis of derived arrays: every positional raw-buffer read applies the array offset/length, absolute/re-based pairing at kernel call sites, _sindex never '
-                     'carried over, derivations construct the receiver\'s own class.',
+                     'carried over, derivations construct the receiver\'s own class. Validity bitmap read for len(array) bits from bit array.offset (loop and vectorised idioms).',
                 undecided='pandas-level semantics and error types, equality of derived quantities.',
                 technique='who-may-read raw buffers + abstract interpretation (base tags) + who-may-write', ref='§5 C16'),
     'C17': dict(text='Static analysis, union of the inert-row rules: fixed-width placeholder values sanitised by the validity mask before any result, NaN rows never covered / never '
@@ -81,16 +81,16 @@ CLAIMS = {
                 undecided='the metamorphic relation as a whole (all results for other rows unchanged).',
                 technique='taint (validity mask) + NaN order-type evaluation + CFG must-guard', ref='§5 C17'),
     'C18': dict(text='Static effect analysis: prange bodies store only A[i] and call only store-free callees, parallel=True kernels use per-iteration result slots, Dask task functions '
-                     'write no captured/global state and their write targets are functions of the task identity, in-place kernels receive only fresh copies.',
+                     'write no captured/global state and their write targets are functions of the task identity, in-place kernels receive only fresh copies. Block boundaries derived from the thread count are provably even before they cut an interleaved buffer; decorator wrappers that store into the receiver; cx indexer works on one snapshot of the index.',
                 undecided='check-then-build caches under concurrent first access, numba runtime, Dask scheduler.',
                 technique='effect analysis (stores closed over the call graph) + provenance of mutated buffers', ref='§5 C18'),
     'C19': dict(text='Static analysis of the retried closures: no swallowed errors on the call tree (enumerated metadata-optional reads excepted), listing-equality gate dominates the '
                      'read of a sub-part directory and raises inside the retried function, removal re-checks existence and raises, retried writers open truncating, every filesystem '
-                     'operation goes through the caller\'s filesystem object.',
+                     'operation goes through the caller\'s filesystem object. Retried functions mutate no state that outlives the attempt (captured or passed in).',
                 undecided='idempotence under real partial failures, the fault enumeration itself.',
                 technique='CFG dominance + handler discipline + who-may-call', ref='§5 C19'),
     'C20': dict(text='Static analysis of the active geometry: _geometry in _metadata, every frame-level spatial operation obtains the geometry through .geometry, constructor inheritance and '
-                     'set_geometry validation, Dask set_geometry mapped and geometry= reaching partitions, re-derivation hooks (__finalize__ for combined inputs, meta_nonempty, sjoin wrap).',
+                     'set_geometry validation, Dask set_geometry mapped and geometry= reaching partitions, re-derivation hooks (__finalize__ for combined inputs, meta_nonempty, sjoin wrap). Inputs of the geometry agreement are not filtered by row count; bounds of all geometry columns stay aligned with the partitions (from C12).',
                 undecided='which pandas code path a given operation takes (S5 is a model of pandas), result types beyond the hooks.',
                 technique='def-use provenance (who-reads) + table rule', ref='§5 C20'),
 }
